@@ -2107,6 +2107,9 @@ class Interp:
             return getattr(obj, name)
         pytype = {SStr: str, SInt: int, SFloat: float, SBool: bool, SList: list, STuple: tuple, SDict: dict, SSet: set,
                   SSeq: list}.get(type(obj))
+        if pytype is list and getattr(obj, "is_deque", False):
+            import collections as _c
+            pytype = _c.deque
         if pytype is not None and not hasattr(pytype, name):
             self.raise_(AttributeError, f"'{pytype.__name__}' object has no attribute '{name}'")
         if isinstance(obj, (SStr, str, SList, SDict, SSet, STuple, SInt, SFloat, SBool, _Tagged, SSeq)):
